@@ -6,14 +6,51 @@ coincides with a differentiable one on an open set.
 import EPV.Support
 import EPV.Tactics
 
+/-! ### linear-time case analysis of a traced decision tree
+
+`split_ifs` (and `simp` with hypotheses) on a nested `if` twelve levels deep takes time exponential in the
+depth (the `ite` congruence rule re-simplifies both branches at every level).  The tactics below walk the
+tree of `outcome` once, with plain `refine`/`rintro`, so they are linear in the number of leaves. -/
+
+theorem EPV.ite_ok {c : Prop} {inst : Decidable c} {a b : EPV.Out} (h : (@ite _ c inst a b) = .ok) :
+    (c ∧ a = .ok) ∨ (¬ c ∧ b = .ok) := by
+  by_cases hc : c
+  · rw [if_pos hc] at h; exact Or.inl ⟨hc, h⟩
+  · rw [if_neg hc] at h; exact Or.inr ⟨hc, h⟩
+
+/-- `o` is `ok` or `raise "ValueError"` -/
+def EPV.OkOrValueError (o : EPV.Out) : Prop := o = .ok ∨ o = .raise "ValueError"
+
+theorem EPV.OkOrValueError.ite {c : Prop} {inst : Decidable c} {a b : EPV.Out}
+    (ha : EPV.OkOrValueError a) (hb : EPV.OkOrValueError b) : EPV.OkOrValueError (@ite _ c inst a b) := by
+  by_cases hc : c
+  · rw [if_pos hc]; exact ha
+  · rw [if_neg hc]; exact hb
+
+/-- with `h : (nested if … ) = .ok` in the context: one goal per accepting path, the path conditions as
+hypotheses, then the given tactic -/
+syntax "epv_ok_split " tacticSeq : tactic
 set_option hygiene false in
-/-- for a hypothesis `h : M.outcome p = .ok` on a model with a deep decision tree: split the tree of
-`outcome` only (one tree instead of one per field), discard the non-`ok` paths, evaluate every other
-tree-level definition along the path found, and run the given tactic on each accepting path.
-Does the same as `epv_on_leaves`, in time linear in the number of fields. -/
+macro_rules
+  | `(tactic| epv_ok_split $t) =>
+    `(tactic| first
+      | (refine Or.elim (EPV.ite_ok h) ?_ ?_ <;> (clear h; rintro ⟨hc, h⟩) <;> epv_ok_split $t)
+      | (cases h; done)
+      | ($t))
+
+set_option hygiene false in
+/-- for a hypothesis `h : M.outcome p = .ok`: walk the tree of `outcome` only, discard the non-`ok` paths,
+evaluate every other tree-level definition along the path found, and run the given tactic on each
+accepting path.  Does the same as `epv_on_leaves`, in linear time. -/
 macro "epv_paths " t:tacticSeq : tactic =>
   `(tactic| (simp only [epv_tree] at h
-             split_ifs at h <;> first | epv_absurd | (simp only [epv_tree, *, if_true, if_false]; ($t))))
+             epv_ok_split (simp only [epv_tree, *, if_true, if_false]; ($t))))
+
+/-- goal `M.outcome p = .ok ∨ M.outcome p = .raise "ValueError"` -/
+macro "epv_ok_or_valueError" : tactic =>
+  `(tactic| (simp only [epv_tree]
+             show EPV.OkOrValueError _
+             repeat (first | exact Or.inl rfl | exact Or.inr rfl | apply EPV.OkOrValueError.ite)))
 
 namespace EPV.Blake
 
